@@ -39,6 +39,9 @@ pub struct PauseAct {
     pub deliver_before_resume: usize,
     /// text pushed to the front of the queue (F3, script pauses only)
     pub inject: Option<String>,
+    /// the script detaches these elements from the DOM (selector modulo the number of attached
+    /// elements at that moment; script pauses only, F11)
+    pub remove: Vec<u32>,
 }
 
 #[derive(Clone, Debug, PartialEq, Eq, Default)]
@@ -66,7 +69,7 @@ impl Schedule {
 
     pub fn is_trivial(&self) -> bool {
         self.cuts.is_empty()
-            && self.pauses.iter().all(|p| p.inject.is_none())
+            && self.pauses.iter().all(|p| p.inject.is_none() && p.remove.is_empty())
             && self.collect_at.is_empty()
             && self.truncate_at.is_none()
             && self.end_at_pause.is_none()
@@ -77,7 +80,7 @@ impl Schedule {
             "cuts": self.cuts,
             "repr": self.repr_name,
             "pauses": self.pauses.iter().map(|p| json!({
-                "at": p.at, "deliver_before_resume": p.deliver_before_resume, "inject": p.inject
+                "at": p.at, "deliver_before_resume": p.deliver_before_resume, "inject": p.inject, "remove": p.remove
             })).collect::<Vec<_>>(),
             "collect_at": self.collect_at,
             "truncate_at": self.truncate_at,
@@ -98,6 +101,7 @@ impl Schedule {
                             at: us(&p["at"]),
                             deliver_before_resume: us(&p["deliver_before_resume"]),
                             inject: p["inject"].as_str().map(|s| s.to_string()),
+                            remove: p["remove"].as_array().map(|a| a.iter().map(|x| x.as_u64().unwrap_or(0) as u32).collect()).unwrap_or_default(),
                         })
                         .collect()
                 })
@@ -288,6 +292,7 @@ pub struct SchedKnobs {
     pub allow_collect: bool,
     pub allow_truncate: bool,
     pub allow_end_at_pause: bool,
+    pub allow_script_dom: bool,
 }
 
 pub fn gen_schedule(rng: &mut Rng, input: &str, knobs: SchedKnobs) -> Schedule {
@@ -305,8 +310,14 @@ pub fn gen_schedule(rng: &mut Rng, input: &str, knobs: SchedKnobs) -> Schedule {
             } else {
                 None
             };
-            if deliver > 0 || inject.is_some() {
-                pauses.push(PauseAct { at, deliver_before_resume: deliver, inject });
+            let mut remove = vec![];
+            if knobs.allow_script_dom && rng.chance(1, 2) {
+                for _ in 0..rng.range(1, 2) {
+                    remove.push(rng.below(1 << 20) as u32);
+                }
+            }
+            if deliver > 0 || inject.is_some() || !remove.is_empty() {
+                pauses.push(PauseAct { at, deliver_before_resume: deliver, inject, remove });
             }
         }
     }
